@@ -224,7 +224,9 @@ fn observe_cache(server: &Server, url: &str) -> (Sx, Sx) {
     (ast, hir)
 }
 
-fn run_notifs(client: &mut Client, tag: &str, hid: i128, notifs: &[Sx]) -> Sx {
+/// `observe`: also read dependencies_of / get_ast / get_hir around every notification (only when no other thread of
+/// the server is analysing: these reads take the server's locks, which time out and panic after 4 s)
+fn run_notifs(client: &mut Client, tag: &str, hid: i128, notifs: &[Sx], observe: bool) -> Sx {
     let mut out = vec![];
     for n in notifs {
         if n.nth(0).z() == 3 {
@@ -233,15 +235,23 @@ fn run_notifs(client: &mut Client, tag: &str, hid: i128, notifs: &[Sx]) -> Sx {
             continue;
         }
         let url = url_of(tag, hid, n.nth(1).z());
-        let deps = NormalizedUrl::parse(&url)
-            .map(|u| client.server.dependencies_of(&u).len() as i128)
-            .unwrap_or(-1);
+        let deps = if observe {
+            NormalizedUrl::parse(&url)
+                .map(|u| client.server.dependencies_of(&u).len() as i128)
+                .unwrap_or(-1)
+        } else {
+            -1
+        };
         let msg = notif_json(tag, hid, n);
         let r = catch_unwind(AssertUnwindSafe(|| client.server.dispatch(msg).is_ok()));
         let msgs = drain(&client.rx);
         match r {
             Ok(ok) => {
-                let (ast, hir) = observe_cache(&client.server, &url);
+                let (ast, hir) = if observe {
+                    observe_cache(&client.server, &url)
+                } else {
+                    (Sx::Z(-1), Sx::Z(-1))
+                };
                 out.push(Sx::L(vec![Sx::Z(if ok { 0 } else { 1 }), pubs_of(&msgs, tag, hid), Sx::Z(deps), ast, hir]))
             }
             Err(e) => {
@@ -286,7 +296,7 @@ fn history(case: &Sx) -> Sx {
         if slots[k].is_none() {
             slots[k] = Some(new_client(autosave));
         }
-        let r = run_notifs(slots[k].as_mut().unwrap(), "h", hid, case.nth(3).l());
+        let r = run_notifs(slots[k].as_mut().unwrap(), "h", hid, case.nth(3).l(), autosave);
         // a panic may leave the shared compiler state locked or half-updated: start over with a new server
         if r.l().iter().any(|s| s.nth(0).z() == -999) {
             slots[k] = None;
@@ -302,8 +312,12 @@ fn fresh(case: &Sx) -> Sx {
     let mut out = vec![];
     for (i, t) in case.nth(3).l().iter().enumerate() {
         let n = Sx::L(vec![Sx::Z(0), Sx::Z(i as i128), Sx::Z(1), t.clone()]);
-        let r = run_notifs(&mut client, "f", hid, &[n]);
+        let r = run_notifs(&mut client, "f", hid, &[n], false);
         out.push(r.nth(0).clone());
+        if r.nth(0).nth(0).z() == -999 {
+            // the analysis of this text panicked: the remaining texts get a new server
+            std::mem::forget(std::mem::replace(&mut client, new_client(autosave)));
+        }
     }
     // the server's worker threads hold clones of it: they stay parked on their channels; nothing to join
     std::mem::forget(client);
@@ -328,7 +342,7 @@ fn rename(case: &Sx) -> Sx {
         }
         let client = slots[1].as_mut().unwrap();
         let open = Sx::L(vec![Sx::Z(0), Sx::Z(0), Sx::Z(serial as i128), case.nth(2).clone()]);
-        let r = run_notifs(client, "r", hid, &[open]);
+        let r = run_notifs(client, "r", hid, &[open], false);
         let mut out = vec![r.nth(0).nth(0).clone()];
         if r.nth(0).nth(0).z() == -999 {
             slots[1] = None;
